@@ -5,6 +5,7 @@ that prunes the traced tree by them.  Shared by Props/C11/SedovAlpha.lean and Pr
 -/
 import EPV.Gen.SedovInit
 import EPV.Tactics
+import EPV.Lemmas.Bridge.SemiTac
 
 set_option linter.all false
 set_option maxRecDepth 100000
@@ -17,17 +18,18 @@ namespace EPV.Sedov
 def SingularType (p : SedovInit.P) : Prop :=
   |4 / ((p.geometry + 2 - p.omega) * (p.gamma + 1)) - 2 / ((p.gamma - 1) * p.geometry + 2)| ≤ 1 / 10000
 
-/-- pins: the decisions of the traced constructor, in the order the theorems prune them
-(a change of the traced decision order breaks these, never the theorems silently) -/
-theorem init_c0 (p : SedovInit.P) : SedovInit.c0 p ↔ p.geometry = 1 := Iff.rfl
-theorem init_c2 (p : SedovInit.P) : SedovInit.c2 p ↔ p.geometry = 2 := Iff.rfl
-theorem init_c3 (p : SedovInit.P) : SedovInit.c3 p ↔ p.geometry = 3 := Iff.rfl
-theorem init_c1 (p : SedovInit.P) : SedovInit.c1 p ↔ p.gamma < 1 := Iff.rfl
-theorem init_c4 (p : SedovInit.P) : SedovInit.c4 p ↔ p.rho0 < 0 := Iff.rfl
-theorem init_c5 (p : SedovInit.P) : SedovInit.c5 p ↔ p.eblast < 0 := Iff.rfl
-theorem init_c6 (p : SedovInit.P) : SedovInit.c6 p ↔ p.omega < 0 := Iff.rfl
-theorem init_c7 (p : SedovInit.P) : SedovInit.c7 p ↔ p.geometry ≤ p.omega := Iff.rfl
-theorem init_c8 (p : SedovInit.P) : SedovInit.c8 p ↔ SingularType p := Iff.rfl
+/-- bridge (GUIDE §8): the traced decision "solution type singular" is the documented test, however the
+Python writes v2 and vstar (compared up to ring normalisation inside the absolute value).  The only
+decision of the constructor the theorems name; the validation checks (geometry, γ, ρ₀, E, ω) are pruned
+by `epv_semi_prune`, which decides each traced condition from the acceptance facts whatever its number
+and whatever the order in which the constructor makes the checks. -/
+theorem init_c8 (p : SedovInit.P) : SedovInit.c8 p ↔ SingularType p := by
+  first
+  | exact Iff.rfl
+  | (simp only [epv_cond, SingularType] <;>
+     first
+     | (ring_nf; done)
+     | (constructor <;> intro h <;> ring_nf at h ⊢ <;> exact h))
 
 /-- what the constructor's checks let through (sedov.py:63-77), see Props/C20/Sedov.lean -/
 structure Accepted (p : SedovInit.P) : Prop where
@@ -39,27 +41,20 @@ structure Accepted (p : SedovInit.P) : Prop where
   omegak : ¬ p.geometry ≤ p.omega
 
 set_option hygiene false in
-/-- prune the traced tree by the acceptance facts and the geometry, split what is left
-(solution type, special singularity) and run `tac` on every remaining leaf -/
+/-- prune the traced tree by the acceptance facts and the geometry (`epv_semi_prune`: every traced
+condition the context decides is rewritten away, whatever its number), split what is left (solution
+type, special singularity) and run `tac` on every remaining leaf.  `hg : p.geometry = 1 | 2 | 3` is in
+scope for `tac`. -/
 macro "init_cases " A:ident p:ident " on " defs:Lean.Parser.Tactic.simpLemma,* " with " tac:tacticSeq : tactic =>
-  `(tactic| (have h1 : ¬ SedovInit.c1 $p := (Accepted.gamma $A)
-             have h4 : ¬ SedovInit.c4 $p := (Accepted.rho0 $A)
-             have h5 : ¬ SedovInit.c5 $p := (Accepted.eblast $A)
-             have h6 : ¬ SedovInit.c6 $p := (Accepted.omega0 $A)
-             have h7 : ¬ SedovInit.c7 $p := (Accepted.omegak $A)
-             rcases (Accepted.geo $A) with hg | hg | hg
-             · have hc0 : SedovInit.c0 $p := hg
-               simp only [$defs,*, hc0, h1, h4, h5, h6, h7, if_true, if_false]
-               split_ifs <;> ($tac)
-             · have hc0 : ¬ SedovInit.c0 $p := by rw [init_c0, hg]; norm_num
-               have hc2 : SedovInit.c2 $p := hg
-               simp only [$defs,*, hc0, hc2, h1, h4, h5, h6, h7, if_true, if_false]
-               split_ifs <;> ($tac)
-             · have hc0 : ¬ SedovInit.c0 $p := by rw [init_c0, hg]; norm_num
-               have hc2 : ¬ SedovInit.c2 $p := by rw [init_c2, hg]; norm_num
-               have hc3 : SedovInit.c3 $p := hg
-               simp only [$defs,*, hc0, hc2, hc3, h1, h4, h5, h6, h7, if_true, if_false]
-               split_ifs <;> ($tac)))
+  `(tactic| (have hAgamma := (Accepted.gamma $A)
+             have hArho0 := (Accepted.rho0 $A)
+             have hAeblast := (Accepted.eblast $A)
+             have hAomega0 := (Accepted.omega0 $A)
+             have hAomegak := (Accepted.omegak $A)
+             rcases (Accepted.geo $A) with hg | hg | hg <;>
+             (simp only [$defs,*, if_true, if_false]
+              epv_semi_prune
+              (try split_ifs) <;> ($tac))))
 
 /-- the documented admissible domain of the Sedov constructor (sedov.py: 'geometry': '1=planar,
 2=cylindrical, 3=spherical'; "gamma must be greater than 1"; "density must be greater than 0";
@@ -74,31 +69,18 @@ structure Documented (p : SedovInit.P) : Prop where
   omegak : p.omega < p.geometry
 
 open Classical in
-/-- the six checks in the order the code makes them: a failed check raises ValueError -/
+/-- a failed check raises ValueError (whichever check fails first, in whatever order the code makes them):
+every leaf of the traced tree that is not `raise ValueError` lies behind all six checks -/
 theorem sedov_not_accepted_raises (p : SedovInit.P) (hA : ¬ Accepted p) :
     SedovInit.outcome p = .raise "ValueError" := by
-  have key : ∀ hg : p.geometry = 1 ∨ p.geometry = 2 ∨ p.geometry = 3,
-      SedovInit.c1 p ∨ SedovInit.c4 p ∨ SedovInit.c5 p ∨ SedovInit.c6 p ∨ SedovInit.c7 p := by
-    intro hg
-    by_contra hne
-    simp only [not_or] at hne
-    exact hA ⟨hg, hne.1, hne.2.1, hne.2.2.1, hne.2.2.2.1, hne.2.2.2.2⟩
-  have checks : ∀ {X Y : EPV.Out}, (SedovInit.c1 p ∨ SedovInit.c4 p ∨ SedovInit.c5 p ∨ SedovInit.c6 p ∨ SedovInit.c7 p) →
-      (if SedovInit.c1 p then EPV.Out.raise "ValueError" else if SedovInit.c4 p then EPV.Out.raise "ValueError"
-        else if SedovInit.c5 p then EPV.Out.raise "ValueError" else if SedovInit.c6 p then EPV.Out.raise "ValueError"
-        else if SedovInit.c7 p then EPV.Out.raise "ValueError" else X) = EPV.Out.raise "ValueError" := by
-    intro X Y h
-    split_ifs <;> first | rfl | (exfalso; tauto)
-  by_cases hc0 : SedovInit.c0 p
-  · simp only [SedovInit.outcome, hc0, if_true]
-    exact checks (Y := .ok) (key (Or.inl hc0))
-  · by_cases hc2 : SedovInit.c2 p
-    · simp only [SedovInit.outcome, hc0, hc2, if_true, if_false]
-      exact checks (Y := .ok) (key (Or.inr (Or.inl hc2)))
-    · by_cases hc3 : SedovInit.c3 p
-      · simp only [SedovInit.outcome, hc0, hc2, hc3, if_true, if_false]
-        exact checks (Y := .ok) (key (Or.inr (Or.inr hc3)))
-      · simp only [SedovInit.outcome, hc0, hc2, hc3, if_false]
+  simp only [SedovInit.outcome]
+  repeat' epv_semi_split1
+  all_goals first
+    | rfl
+    | (exfalso
+       apply hA
+       simp only [epv_cond] at *
+       constructor <;> first | assumption | tauto | epv_semi_lin)
 
 /-- the six checks passed: the constructor returns normally (the three `raise AttributeError`
 leaves of the traced tree — solution_type never assigned — are unreachable for real numbers) -/
@@ -107,9 +89,8 @@ theorem sedov_accepted_ok (p : SedovInit.P) (A : Accepted p) : SedovInit.outcome
     first
     | rfl
     | (exfalso
-       have h8 : ¬ SedovInit.c8 p := by assumption
-       simp only [epv_cond, not_le, not_lt] at *
-       rcases lt_abs.mp h8 with hh | hh <;> linarith)
+       simp only [epv_cond] at *
+       epv_semi_abs_lin)
 
 theorem Documented.accepted {p : SedovInit.P} (D : Documented p) : Accepted p :=
   ⟨D.geo, not_lt.mpr D.gamma.le, not_lt.mpr D.rho0.le, not_lt.mpr D.eblast.le, not_lt.mpr D.omega0,
